@@ -795,7 +795,9 @@ def tcp_one(case, stats):
                     lo = cut['elem'] or 0
                     acted = all(got[n] == want[n] or (n == cut['tag'] and all(
                         got[n][j] == want[n][j] or lo <= j < lo + cut['count'] for j in range(len(want[n])))) for n in want)
-                fail('tcp:unfinished-frame-changed-tags' if acted else 'tcp:tags-differ-from-model',
+                lost = any(got == model_after(ops, j).snapshot() for j in range(complete))
+                fail('tcp:unfinished-frame-changed-tags' if acted else 'tcp:complete-frame-not-applied' if lost
+                     else 'tcp:tags-differ-from-model',
                      {n: got[n] for n in got if got[n] != want[n]}, {n: want[n] for n in got if got[n] != want[n]})
             # the witness reads the tag the cut request addresses
             spec = next(s for s in TCP_SPECS if s['name'] == ops[min(complete, len(ops) - 1)]['tag'])
@@ -826,7 +828,7 @@ def witness_read(ent, spec, want, fail):
         frames, left, eof = sim.recv_frames(sock, 1, TMO)
     except socket.timeout:
         raise HarnessError('witness session: send timed out')
-    except OSError as exc:
+    except OSError:
         frames, left, eof = [], b'', True
     if not frames:
         if not eof:
@@ -872,25 +874,25 @@ def pred_tcp(case, stats):
         s = Stats()
         try:
             tcp_case(case, s)
-            tx.send(('ok', s))
+            tx.send(('ok', s, None))
         except HarnessError as exc:
-            tx.send(('harness', str(exc)))
+            tx.send(('harness', s, str(exc)))
         except BaseException:
-            tx.send(('harness', traceback.format_exc()))
+            tx.send(('harness', Stats(), traceback.format_exc()))
 
     p = ctx.Process(target=target, daemon=True)
     p.start()
     try:
         if not rx.poll(1800):
             raise HarnessError('one-shot simulator child did not answer')
-        kind, val = rx.recv()
+        kind, val, err = rx.recv()
     finally:
         p.join(5)
         if p.is_alive():
             p.terminate()
-    if kind != 'ok':
-        raise HarnessError(val)
     stats.merge(val)
+    if kind != 'ok' and not val.fails:     # an inconclusive timing observation does not hide a recorded violation
+        raise HarnessError(err)
 
 
 CLAUSES = {'framer': pred_framer, 'client': pred_client, 'tcp-truncation': pred_tcp}
@@ -1161,7 +1163,7 @@ def run(tier, seed):
         raise HarnessError('%d TCP shard(s) inconclusive: %s' % (stats.extra['tcp_inconclusive_shards'],
                                                               '; '.join(n for n in stats.notes if n.startswith('TCP shard'))))
     sampled = ('positions within %d bytes of a frame edge, within 2 of the header/payload edge and of a 4096-byte block edge, and '
-               'every %dth position')
+               'every %d-th position')
     big_f = 'all positions' if thorough else sampled % (40, 61) + ' (quick tier; thorough enumerates all)'
     big_c = sampled % ((40, 61) if thorough else (8, 509))
     stats.exhaustive['framer:two-way-splits'] = (
